@@ -170,6 +170,14 @@ func (x *Exec) eval(e ast.Expr, env *Env) Term {
 				base := x.eval(e.X, env)
 				r, ok := x.getFieldPath(base, info.TypeOf(e.X), sel.Index())
 				if !ok {
+					if strings.HasPrefix(string(base.Sort), "U_") {
+						bb := base
+						bb.GoT = info.TypeOf(e.X)
+						if r, ok := x.opaqueField(bb, e.Sel.Name); ok {
+							x.typeFactsIf(r, r.GoT, env)
+							return r
+						}
+					}
 					x.W.Note("field read on unmodelled struct: " + types.ExprString(e))
 					return x.freshOrFail(e, info.TypeOf(e))
 				}
